@@ -3,7 +3,7 @@
       model state is matched by the model of Pipe/Model.v; no deadlock, no panic, no goroutine left, delivery. *)
 From Coq Require Import ZArith NArith List String Bool Lia.
 From Texel Require Import Pipe.Model Pipe.ProofsBase Pipe.ProofsInv Pipe.ProofsLive Pipe.Skeleton Pipe.SkeletonSem Pipe.SkeletonSim
-  Pipe.ProofsSkeleton Pipe.ProofsGenSkeleton Pipe.Converse Pipe.ConverseRank Pipe.ProofsConverse8 Pipe.ProofsConverse9 Pipe.ProofsConverse11.
+  Pipe.ProofsSkeleton Pipe.ProofsGenSkeleton Pipe.Converse Pipe.ConverseRank Pipe.ProofsConverse8 Pipe.ProofsConverse9 Pipe.ProofsConverse11 Pipe.ProofsConverse12 Pipe.ConversePc.
 From Texel.Gen Require Import PipeGen.
 Import ListNotations.
 Open Scope list_scope.
@@ -86,4 +86,28 @@ Theorem gen_model_steps_bounded : forall cfg acts evs g s,
 Proof.
   intros cfg acts evs g s H. destruct (gen_skeleton_run_is_model_run cfg acts evs g s H) as (_ & (ls & Hl & _) & _).
   exists ls. split; [exact Hl | exact (exec_length_bound cfg _ _ _ Hl)].
+Qed.
+
+(** ** Termination: ranked coupled runs (Pipe/ConverseRank.v) *)
+
+Theorem gen_rrun_is_crun : forall cfg acts k R2 C2 W2 s2,
+  rrun Pg cfg [RoMain M0] [] [] (init cfg) acts k R2 C2 W2 s2 ->
+  exists evs, crun Pg cfg (ginit Pg (c_targets cfg)) (init cfg) acts evs (gst (c_targets cfg) R2 C2 W2) s2.
+Proof. unfold Pg. rewrite gen_program. intros cfg acts k R2 C2 W2 s2 H. exact (rrun_crun _ _ _ _ _ _ _ _ _ _ _ H). Qed.
+
+Theorem gen_rrun_extend : forall cfg acts k R2 C2 W2 s2 a g3 ev, wf_config cfg ->
+  rrun Pg cfg [RoMain M0] [] [] (init cfg) acts k R2 C2 W2 s2 ->
+  gstep Pg (gst (c_targets cfg) R2 C2 W2) a = Some (g3, ev) -> data_ok s2 (gst (c_targets cfg) R2 C2 W2) a ->
+  exists R3 C3 W3 s3 pure, g3 = gst (c_targets cfg) R3 C3 W3
+                           /\ rrun Pg cfg [RoMain M0] [] [] (init cfg) (acts ++ [a]) (k + Nat.b2n pure) R3 C3 W3 s3.
+Proof. unfold Pg. rewrite gen_program. exact rrun_extend. Qed.
+
+Theorem gen_rrun_bound : forall cfg acts k R2 C2 W2 s2,
+  rrun Pg cfg [RoMain M0] [] [] (init cfg) acts k R2 C2 W2 s2 ->
+  (List.length acts <= k + (8 + 3 * List.length (c_targets cfg))
+                       + (33 + 17 * List.length (c_targets cfg)) * measure cfg (init cfg))%nat.
+Proof.
+  unfold Pg. rewrite gen_program. intros cfg acts k R2 C2 W2 s2 H.
+  pose proof (rrun_bound _ _ _ _ _ _ _ _ _ _ _ H) as Hb. unfold rank_bound in Hb.
+  change (rank_sum (c_targets cfg) [RoMain M0]) with (8 + 3 * List.length (c_targets cfg) + 0)%nat in Hb. lia.
 Qed.
